@@ -48,9 +48,11 @@ func (f FilterFlag) String() string {
 		return name
 	}
 
+	// Visit the known flags in ascending order so that the result does not
+	// depend on the iteration order of the map.
 	var list []string
-	for flag, name := range filterFlagNames {
-		if f&flag != 0 {
+	for flag := FilterFlag(1); flag != 0; flag <<= 1 {
+		if name, found := filterFlagNames[flag]; found && f&flag != 0 {
 			f ^= flag
 			list = append(list, name)
 		}
